@@ -123,6 +123,17 @@ Qed.
 
 End InsertCol.
 
+Lemma mulR nc R : 0 < R -> nc * R = (R - 1) * nc + nc.
+Proof. intros H. destruct R as [|R']; [lia|]. cbn [Nat.sub]. rewrite Nat.sub_0_r. lia. Qed.
+
+Lemma cell_lt n R r c : r < R -> c <= n -> r * (n + 1) + c < n * R + R.
+Proof.
+  intros Hr Hc. assert ((r + 1) * (n + 1) <= R * (n + 1)) by (apply Nat.mul_le_mono_r; lia). lia.
+Qed.
+
+Lemma cell_zero n r c i : r * (n + 1) + c < i -> i <= n -> r = 0 /\ c < i.
+Proof. intros H Hi. destruct r as [|r]; [lia|]. exfalso. cbn [Nat.mul] in H. lia. Qed.
+
 Section InsertColTop.
 Context {A : Type}.
 
@@ -172,20 +183,20 @@ Proof.
   set (M := length m0).
   destruct (Nat.ltb_spec 0 R) as [HR|HR0].
   - (* at least one row: the last row's suffix, its new element, then the loop *)
-    rewrite Hdata.
-    destruct (Nat.leb_spec (nc - idx) (nc * R)); [|nia]. cbn [bind].
-    destruct (Nat.leb_spec (nc - idx) (nc * R + R)); [|nia]. cbn [bind].
+    rewrite Hdata. pose proof (mulR nc R HR) as EnR. pose proof (Nat.le_0_l ((R - 1) * nc)) as Hpos.
+    destruct (Nat.leb_spec (nc - idx) (nc * R)); [|lia]. cbn [bind].
+    destruct (Nat.leb_spec (nc - idx) (nc * R + R)); [|lia]. cbn [bind].
     set (rp := nc * R - (nc - idx)). set (wp := nc * R + R - (nc - idx)).
-    assert (Hrp : rp = (R - 1) * nc + idx) by (subst rp; nia).
-    assert (Hwp : wp = (R - 1) * (nc + 1) + idx + 1) by (subst wp; nia).
-    destruct (ptr_copy_ok rp wp (nc - idx) m0) as [m1 E1]; [nia|nia|]. rewrite E1. cbn [bind].
+    assert (Hrp : rp = (R - 1) * nc + idx) by (subst rp; lia).
+    assert (Hwp : wp = (R - 1) * (nc + 1) + idx + 1) by (subst wp; lia).
+    destruct (ptr_copy_ok rp wp (nc - idx) m0) as [m1 E1]; [lia|lia|]. rewrite E1. cbn [bind].
     apply ptr_copy_spec in E1. destruct E1 as [L1 N1].
     destruct (Nat.leb_spec 1 wp); [|lia]. cbn [bind].
     assert (Hk0 : nth_error (rev xs) 0 = nth_error xs (R - 1)).
     { rewrite nth_error_rev_local by (fold R; lia). f_equal. fold R. lia. }
     destruct (nth_error xs (R - 1)) as [e|] eqn:Ee; [|apply nth_error_None in Ee; fold R in Ee; lia].
     rewrite (script_next_back_honest xs _ 0 e Hk0).
-    destruct (ptr_write_ok (wp - 1) e m1) as [m2 E2]; [nia|]. rewrite E2. cbn [bind].
+    destruct (ptr_write_ok (wp - 1) e m1) as [m2 E2]; [lia|]. rewrite E2. cbn [bind].
     apply ptr_write_spec in E2. destruct E2 as [L2 N2].
     assert (Hm0 : forall p, p < nc * R -> nth_error m0 p = Some (nth_error (data t) p)).
     { intros p Hp. unfold m0. rewrite nth_error_app, map_length. destruct (Nat.ltb_spec p (length (data t))); [|lia].
@@ -200,17 +211,17 @@ Proof.
         + assert (c = idx) by lia. subst c. unfold fv. rewrite Nat.ltb_irrefl, Nat.eqb_refl, Ee. reflexivity.
         + rewrite N1. destruct (Nat.leb_spec wp ((R - 1) * (nc + 1) + c)); [|lia].
           destruct (Nat.ltb_spec ((R - 1) * (nc + 1) + c) (wp + (nc - idx))); [|lia]. cbn [andb].
-          rewrite Hm0 by nia. f_equal. unfold fv.
-          destruct (Nat.ltb_spec c idx); [lia|]. destruct (Nat.eqb_spec c idx); [lia|]. f_equal. nia.
-      - intros p Hp. rewrite N2. destruct (Nat.eqb_spec p (wp - 1)); [nia|]. rewrite N1.
-        destruct (Nat.leb_spec wp p); [nia|]. cbn [andb]. apply Hm0. nia. }
+          rewrite Hm0 by lia. f_equal. unfold fv.
+          destruct (Nat.ltb_spec c idx); [lia|]. destruct (Nat.eqb_spec c idx); [lia|]. f_equal. lia.
+      - intros p Hp. rewrite N2. destruct (Nat.eqb_spec p (wp - 1)); [lia|]. rewrite N1.
+        destruct (Nat.leb_spec wp p); [lia|]. cbn [andb]. apply Hm0. lia. }
     destruct (insert_col_loop_ok (data t) xs nc idx Hidx Hdata (N.of_nat R) M ltac:(fold R; lia) (R - 1) m2
                 ltac:(fold R; lia) Hinv) as [m3 [E3 Hinv3]].
     fold R in E3. replace (R - (R - 1)) with 1 in E3 by lia.
     replace (wp - 1) with ((R - 1) * (nc + 1) + idx) by lia. rewrite Hrp. rewrite E3. cbn [bind negb].
     rewrite Nat.leb_refl. cbn [bind]. rewrite Nat.sub_diag.
     destruct Hinv3 as [L3 [F3 R3]].
-    destruct (ptr_copy_ok 0 0 idx m3) as [m4 E4]; [nia|nia|]. rewrite E4. cbn [bind].
+    destruct (ptr_copy_ok 0 0 idx m3) as [m4 E4]; [lia|lia|]. rewrite E4. cbn [bind].
     apply ptr_copy_spec in E4. destruct E4 as [L4 N4].
     assert (Hm4 : forall p, nth_error m4 p = nth_error m3 p).
     { intros p. rewrite N4. destruct ((0 <=? p) && (p <? 0 + idx)); [f_equal; lia|reflexivity]. }
@@ -222,7 +233,7 @@ Proof.
     { intros r c Hr Hc. rewrite Hm4.
       destruct (Nat.le_gt_cases idx (r * (nc + 1) + c)) as [Hge|Hlt].
       - apply F3; [exact Hr|exact Hc|lia].
-      - assert (Hr0 : r = 0 /\ c < idx) by nia. destruct Hr0 as [-> Hci]. cbn [Nat.mul Nat.add].
+      - destruct (cell_zero nc r c idx Hlt Hidx) as [-> Hci]. cbn [Nat.mul Nat.add].
         rewrite R3 by lia. unfold fv. destruct (Nat.ltb_spec c idx); [|lia]. reflexivity. }
     assert (Hcells : forall p, p < (nc + 1) * R -> exists r c, r < R /\ c <= nc /\ p = r * (nc + 1) + c).
     { intros p Hp. exists (p / (nc + 1)), (p mod (nc + 1)).
@@ -247,7 +258,7 @@ Proof.
       assert (Hn : nth_error (firstn (nc * R + R) m4) (r * (nc + 1) + c) = nth_error (map Some d) (r * (nc + 1) + c))
         by (rewrite Hd; reflexivity).
       rewrite nth_error_firstn, nth_error_map in Hn.
-      destruct (Nat.ltb_spec (r * (nc + 1) + c) (nc * R + R)); [|nia].
+      destruct (Nat.ltb_spec (r * (nc + 1) + c) (nc * R + R)); [|pose proof (cell_lt nc R r c Hr Hc); lia].
       rewrite Hall in Hn by assumption.
       destruct (nth_error d (r * (nc + 1) + c)); cbn in Hn; [inversion Hn; reflexivity|discriminate].
   - (* an empty column into the empty array *)
